@@ -531,8 +531,32 @@ def main():
 
 
 MANIFEST = {
-    "claimed": False,
-    "text": "",
-    "note": "",
+    "claimed": True,
+    "text": "Theorems (Coq, binary64 = Coq primitive floats, for every controller state satisfying the invariant, which "
+            "C43_invariant proves for every history of controller operations from KalmanController::new with arbitrary oracle "
+            "values): C43_frequency_query (+_unknown): the frequency query returns the frequency entry (row base_index+1) and "
+            "the square root of its variance, the offset query the offset entry; C43_clamped: every frequency a completed "
+            "steer_clocks hands to set_frequency is NaN exactly when the wanted value cur - freq - offset/8 is NaN and otherwise "
+            "lies in [-max, max] for that clock's max_frequency (which is then not NaN); C43_clamp_range: f64::clamp for all "
+            "binary64 values; C43_absorbed + C43_decision: a completed steer_clocks first progresses the filter to now, makes "
+            "exactly one call per steered clock in order, and the controller's own estimate of each steered clock moves by exactly "
+            "the applied change with one binary64 addition (frequency + (set - get); offset + the stepped Duration as seconds for "
+            "the system clock; offset + (-offset) with the clock stepped by trunc(-offset*2^64) for other clocks), everything "
+            "else reported unchanged. The model is the code AFTER the repair of KalmanController::clock_frequency (branch "
+            "fix-c43); it is tied bit for bit to the real KalmanController/steer_clocks with recording mock clocks on every run.",
+    "note": "Confirmed defect (DESIGN.md 4 row 12): on the unrepaired tree KalmanController::clock_frequency returns the offset "
+            "estimate; ./check C43 reports it with a concrete replay (monitor: controller query vs the filter's own frequency "
+            "query). Trusted: Coq kernel + vm_compute; hand-written model coq/Model/PtpController.v on coq/Model/Estimator.v; "
+            "harness + python driver. Oracles (function arguments, all values quantified in the theorems, taken from the "
+            "implementation run in the tie): fresh identifiers, the link-noise estimate of tracked links and the consensus "
+            "decision for links with an external clock (link_noise.rs and the window selection of filter.rs are not modelled), "
+            "the clocks' now/get_frequency/max_frequency answers. Clock calls do not fail in the model: when a clock call fails "
+            "the real steer_clocks returns early after earlier clocks were already steered and the filter is not updated "
+            "(observation, outside the property's quantifier). The offset that decides step-vs-slew is read from the filter "
+            "before the time progression of the same call (as in the code). A NaN or negative max_frequency makes f64::clamp "
+            "panic inside the controller's RwLock (model: Panic; the lock is poisoned afterwards). 'Within floating-point "
+            "rounding' is stated exactly: one addition; for non-system clocks the clock receives the Duration truncation of the "
+            "value the filter absorbs. Print Assumptions: only the primitive float/int operations and their specification "
+            "axioms of the Coq standard library (through Flocq's PrimFloat correspondence for the comparisons).",
     "design_ref": "DESIGN.md 3 C43, 4 row 12",
 }
